@@ -79,21 +79,38 @@ def table_shape(src):
     return walk(symtable.symtable(src, "<m>", "exec"))
 
 
-def twin_text(r, text):
-    """generator-expression twin (see _pyscope.genexp_twin) of rope's output: the comprehension
-    brackets are found through the token alignment with the rendered input"""
-    if not r.brackets:
-        return text
+def brackets_after(r, text):
+    """positions of the comprehension brackets in rope's output, through the token
+    alignment with the rendered input"""
     before = tokens(r.src)
     after = tokens(text)
     index = {p: i for i, (_, _, p) in enumerate(before)}
+    return [(after[index[o]][2], after[index[c]][2]) for (o, c) in r.brackets.values()]
+
+
+def twin_text(r, text):
+    """generator-expression twin (see _pyscope.genexp_twin) of rope's output"""
+    if not r.brackets:
+        return text
     lines = [list(l) for l in text.split("\n")]
-    for (o, c) in r.brackets.values():
-        for pos, ch, rep in ((o, "[", "("), (c, "]", ")")):
-            ln, col = after[index[pos]][2]
+    for (o, c) in brackets_after(r, text):
+        for (ln, col), ch, rep in ((o, "[", "("), (c, "]", ")")):
             assert lines[ln - 1][col] == ch
             lines[ln - 1][col] = rep
     return "\n".join("".join(l) for l in lines)
+
+
+def run_deinlined(r, files=None):
+    """execute the program with every list comprehension written as [*(genexp)]; `files`:
+    rope's output for the same program (brackets located by token alignment)"""
+    if files is None:
+        main = ps.deinline(r.src, list(r.brackets.values()))
+        files = r.files
+    else:
+        main = ps.deinline(files[r.main], brackets_after(r, files[r.main]))
+    if r.lib_path is None:
+        return ps.execute(main)
+    return ps.execute_project(dict(files, **{r.main: main}), r.main, r.outside)
 
 
 def tables_iso(a, b, old, new):
@@ -252,7 +269,17 @@ def judge(prog, r, rp, q, qdesc, res, ren):
             hit = keys & changed
             if hit and hit != keys:
                 for k in sorted(hit):
-                    fail("captured", "partial-class", by_key[k],
+                    # describe the deviation by the renamed token, or - when that only says
+                    # "plain binding" / "same import merged" - by a token that was left behind
+                    t_cause = by_key[k]
+                    if anchor is not None:
+                        generic = lambda cs: cs[0].startswith("by:") or cs[0] == "same-object-imported-in-two-scopes"
+                        if generic(c02.causes_for(prog, anchor, t_cause)):
+                            for k2 in sorted(keys - hit):
+                                if not generic(c02.causes_for(prog, anchor, by_key[k2])):
+                                    t_cause = by_key[k2]
+                                    break
+                    fail("captured", "partial-class", t_cause,
                          "asked at %s (binding %s): token %s of the binding %s was renamed, tokens %s of that "
                          "binding were not" % (qdesc, cls_key, k, ck, sorted(keys - hit)))
             elif hit:
@@ -282,7 +309,14 @@ def run_case(item):
         info_post = ps.cpython_check(post, rp)
     except ps.SpecMismatch as e:
         return {"machinery": "spec vs CPython: %s\n%s\n%s" % (e, ps.describe(pre), r.files)}
-    if (info["out"], info["exc"]) != (info_post["out"], info_post["exc"]):
+    ref = (info["out"], info["exc"])
+    inlining_bug = False
+    if ref != (info_post["out"], info_post["exc"]) and r.brackets and run_deinlined(r) == run_deinlined(rp):
+        # CPython 3.12.0/3.12.1 miscompile some inlined comprehensions (see _pyscope.deinline);
+        # with generator expressions the two programs agree: compare in that form
+        inlining_bug = True
+        ref = run_deinlined(r)
+    elif ref != (info_post["out"], info_post["exc"]):
         return {"machinery": "the spec's Rename changes what the program prints:\n%s\n--- after Rename%s ---\n%s\n%s vs %s" % (
             r.files, ren, rp.files, info["out"], info_post["out"])}
     if ren["kind"] != "module":
@@ -303,7 +337,7 @@ def run_case(item):
         new = NEW
     shape_pre = table_shape(ps.genexp_twin(r))
     out = {"group": group, "fails": [], "requests": 0, "refused": 0, "noop": 0, "changed": 0, "exact": 0,
-           "over": 0, "kind": ren["kind"]}
+           "over": 0, "kind": ren["kind"], "inlining_bug": 0}
     fails_all = []
     results = {}
     project, close = c02.open_project(r)
@@ -350,7 +384,12 @@ def run_case(item):
                     o2, e2 = ps.execute(summary["main_after"])
                 else:
                     o2, e2 = ps.execute_project(res["files"], main_after, r.outside)
-                if not iso or (o2, e2) != (info["out"], info["exc"]):
+                if r.brackets and (inlining_bug or (o2, e2) != ref):
+                    o2, e2 = run_deinlined(r, res["files"])
+                    if not inlining_bug and (o2, e2) == run_deinlined(r):
+                        inlining_bug = True
+                        ref = (o2, e2)
+                if not iso or (o2, e2) != ref:
                     return {"machinery": "token-level verdict says equivalent, CPython disagrees (tables iso=%s, output %s/%s vs %s/%s)\n%s\n---\n%s" % (
                         iso, info["out"], info["exc"], o2, e2, r.files, res["files"])}
                 if summary["whole_other_classes"]:
@@ -362,6 +401,7 @@ def run_case(item):
             fails_all.extend(fails)
     finally:
         close()
+    out["inlining_bug"] = int(inlining_bug)
     if fails_all:
         out["fails"] = [{"key": k, "detail": d} for k, d in fails_all]
         out["program"] = ps.describe(pre)
@@ -425,7 +465,7 @@ def main(tier):
     _ROOT = common.scratch("c01_")
     c02._ROOT = _ROOT
     replayed = 0
-    tot = {"requests": 0, "refused": 0, "noop": 0, "changed": 0, "exact": 0, "over": 0}
+    tot = {"requests": 0, "refused": 0, "noop": 0, "changed": 0, "exact": 0, "over": 0, "inlining_bug": 0}
     by_group = {}
     samples = []
     try:
